@@ -8,11 +8,22 @@ from ..rules import minmax
 from ..rules import findend
 from ..rules import maxmin
 from ..rules import rangewire
+from ..rules import seeknet
+from ..common import AnalysisError
 
 
 def tu_check(tu):
     t = rg.c_range_table(tu)
-    sa = rg.seek_algebra(tu)
+    sn = seeknet.analyse(tu)
+    try:
+        sa = rg.seek_algebra(tu)
+    except AnalysisError as e:
+        # the per-iteration view needs the two loops in BTreeItems_seek itself;
+        # when the walk is organised differently the net effect (SEEK-NET) is
+        # what is decided - provided it saw moves in both directions
+        if sn["kinds"] != ["next", "prev", "within"] or sn["n"] < 10:
+            raise
+        sa = "not applicable to this shape (%s); SEEK-NET decides" % str(e)[:120]
     bn = rg.bound_norm_c(tu)
     unb = rg.c_unbounded_table(tu)
     cross = rg.c_cross_table(tu)
@@ -20,17 +31,17 @@ def tu_check(tu):
     fe = findend.c_check(tu)
     mx = maxmin.c_check(tu)
     rw = rangewire.c_check(tu)
-    bn["findings"] = bn["findings"] + ei["findings"] + fe["findings"] + mx["findings"] + rw["findings"]
+    bn["findings"] = bn["findings"] + ei["findings"] + fe["findings"] + mx["findings"] + rw["findings"] + sn["findings"]
     bn["rw"] = rw["n"]
     bn["fe"] = fe["n"]
     bn["mx"] = mx["n"]
     bn["ei"] = ei["stats"]["error_result_sites"]
-    return dict(rw=bn["rw"], mx=bn["mx"], fe=bn["fe"], ei=bn["ei"], cross={repr(k): v for k, v in cross.items()}, unb={repr(k): v for k, v in unb.items()}, range={repr(k): v for k, v in t.items()}, seek=sa, findings=bn["findings"], bn=bn["n"])
+    return dict(rw=bn["rw"], mx=bn["mx"], fe=bn["fe"], ei=bn["ei"], cross={repr(k): v for k, v in cross.items()}, unb={repr(k): v for k, v in unb.items()}, range={repr(k): v for k, v in t.items()}, seek=sa, seeknet=dict(n=sn["n"], kinds=sn["kinds"], dropped=sn["dropped"], returns=sn["returns"]), findings=bn["findings"], bn=bn["n"])
 
 
 def run(tier="quick", seed=0, use_cache=True):
     res = engine.Result("C02")
-    res.rules = ["RANGE-TABLE", "BOUND-NORM", "SEEK-ALGEBRA", "ITER-CONTINUE", "TREE-EXCLUDE", "UNBOUNDED-END", "RANGE-SHAPE", "ENDS-CROSS", "ERR-IGNORED", "MINMAX-TABLE", "FINDEND-TABLE", "RANGE-WIRING"]
+    res.rules = ["RANGE-TABLE", "BOUND-NORM", "SEEK-ALGEBRA", "SEEK-NET", "ITER-CONTINUE", "TREE-EXCLUDE", "UNBOUNDED-END", "RANGE-SHAPE", "ENDS-CROSS", "ERR-IGNORED", "MINMAX-TABLE", "FINDEND-TABLE", "RANGE-WIRING"]
     res.exhaustive = True
     res.explanation = (
         "Leaf-level and cursor-level pieces of the range machinery, decided "
@@ -45,7 +56,12 @@ def run(tier="quick", seed=0, use_cache=True):
         "(pseudoindex, delta, currentoffset) are computed as polynomials and "
         "must be the affine functions the leaf geometry dictates (moving to "
         "the next leaf adds len - offset, moving to the previous leaf "
-        "subtracts offset + 1 and lands on len' - 1). ITER-CONTINUE: the "
+        "subtracts offset + 1 and lands on len' - 1). SEEK-NET: the whole "
+        "function is executed symbolically (helpers inlined, out-parameters "
+        "followed, each loop unrolled 3 times, contradictory paths dropped by "
+        "bounds on linear forms); with base(leaf) the index of a leaf's first "
+        "item every successful return must have committed pseudoindex == i "
+        "and base(committed leaf) + committed offset == i. ITER-CONTINUE: the "
         "Python lazy sequence moves on to the next leaf unless a leaf after "
         "the first yielded nothing (decision table over which leaves yield). "
         "TREE-EXCLUDE: decision table of the range arguments the Python lazy "
@@ -112,9 +128,13 @@ def run(tier="quick", seed=0, use_cache=True):
                            "computed as %s; the specification requires %s"
                            % ("low" if low else "high", "present" if found else "absent",
                               "exclusive" if excl else "inclusive", got[0], want), path=[]), fam)
-        got_seek = [tuple(x) for x in r["seek"]]
+        if isinstance(r["seek"], str):
+            got_seek = None
+            res.extra.setdefault("seek_algebra_not_applicable", {})[fam] = r["seek"]
+        else:
+            got_seek = [tuple(x) for x in r["seek"]]
         n += len(spec_seek)
-        if sorted(got_seek, key=repr) != sorted(spec_seek, key=repr):
+        if got_seek is not None and sorted(got_seek, key=repr) != sorted(spec_seek, key=repr):
             extra = [x for x in got_seek if x not in spec_seek]
             missing = [x for x in spec_seek if x not in got_seek]
             res.findings.add(dict(
@@ -165,6 +185,9 @@ def run(tier="quick", seed=0, use_cache=True):
     res.count("UNBOUNDED-END", 16 * len(out))
     res.count("RANGE-TABLE", 8 * len(out))
     res.count("SEEK-ALGEBRA", len(spec_seek) * len(out))
+    res.count("SEEK-NET", sum(r["seeknet"]["n"] for r in out.values()))
+    res.floor("successful paths of BTreeItems_seek executed symbolically (OO)", out["OO"]["seeknet"]["n"], 10)
+    res.floor("kinds of moves seen by SEEK-NET (OO: within / next / prev)", len(out["OO"]["seeknet"]["kinds"]), 3)
     res.count("BOUND-NORM", sum(r["bn"] for r in out.values()))
     pt = rg.py_range_table()
     for k, v in sorted(pt.items()):
@@ -203,7 +226,7 @@ def run(tier="quick", seed=0, use_cache=True):
     res.count("C-MINMAX-TABLE", sum(r["mx"] for r in out.values()))
     res.count("RANGE-WIRING", sum(r["rw"] for r in out.values()))
     res.floor("valuations of the tree-level endpoint search (OO)", out["OO"]["fe"], 72)
-    res.samples = [{"c_range_table_OO": out["OO"]["range"]}, {"seek_effects_OO": out["OO"]["seek"]},
+    res.samples = [{"c_range_table_OO": out["OO"]["range"]}, {"seek_effects_OO": out["OO"]["seek"]}, {"seek_net_OO": out["OO"]["seeknet"]},
                    {"python_iter_table": {repr(k): v for k, v in it.items()}},
                    {"python_minmax_tables": mm}]
     res.units = {"translation_units": len(out)}
